@@ -30,6 +30,7 @@ type c15Scenario struct {
 	lastWasCleanReset  bool
 	pols               string // if set: only these catalogue indices are offered (sharp drivers)
 	noRR, importOnly   bool
+	exportOnly         bool
 }
 
 func init() {
@@ -45,6 +46,8 @@ func init() {
 				sc.noRR = true
 			case "importonly":
 				sc.importOnly = true
+			case "exportonly":
+				sc.exportOnly = true
 			}
 		}
 		return sc
@@ -68,12 +71,17 @@ func (sc *c15Scenario) Enabled(w *simWorld) []simEvent {
 			ev = append(ev, simEvent{Op: "pol", A: 1, B: k})
 		}
 	}
-	ev = append(ev, simEvent{Op: "softin"})
+	if !sc.exportOnly {
+		ev = append(ev, simEvent{Op: "softin"})
+	}
 	if !sc.importOnly {
-		ev = append(ev, simEvent{Op: "softout"}, simEvent{Op: "softboth"})
+		ev = append(ev, simEvent{Op: "softout"})
+		if !sc.exportOnly {
+			ev = append(ev, simEvent{Op: "softboth"})
+		}
 	}
 	for i := range w.bots {
-		if !sc.noRR {
+		if !sc.noRR && (!sc.exportOnly || i > 0) {
 			ev = append(ev, simEvent{Op: "rr", Bot: i})
 		}
 	}
@@ -283,6 +291,9 @@ func TestVerif_C15_Sim(t *testing.T) {
 	// all" and "reject community", all three soft resets — a replacement that the export policy rejects
 	// must take the previous version away from the ADD-PATH peer as well
 	simExplore(t, r, simExploreCfg{Scenario: "softreset", Arg: "cfg=ea;npfx=1;nvar=2;src=0;pols=02;norr;noflap;noapi;nopeers", Depth: deep, Budget: budget})
+	// third sharp driver: export policy switched between "accept all" and "reject community", soft reset out
+	// and ROUTE-REFRESH from the receiver: what a refresh hands over must be remembered as sent
+	simExplore(t, r, simExploreCfg{Scenario: "softreset", Arg: "cfg=ee;npfx=1;nvar=2;src=0;pols=02;noflap;noapi;nopeers;exportonly", Depth: deep + 2, Budget: budget})
 	for _, k := range []string{"import-policy-rejects-a-route", "import-policy-modifies-a-route", "export-policy-rejects-a-route", "export-policy-modifies-a-route"} {
 		if r.Outcomes[k] == 0 && len(r.Violations) == 0 {
 			t.Fatalf("ENGINE-ERROR vacuous exploration: no state in which %s: %v", k, r.Outcomes)
